@@ -262,6 +262,8 @@ impl<'t> Gen<'t> {
         let aa = self.attrs[a].take().expect("gen: stream used twice");
         let ab = self.attrs[b].take().expect("gen: stream used twice");
         let (len, keys) = match &op {
+            BinOp::KeyedMergeAssoc(_) => (aa.keys.max(ab.keys), aa.keys.max(ab.keys)),
+            BinOp::KeyedJoinAssoc(_) => (ab.len, aa.keys.max(ab.keys)),
             BinOp::Merge => (aa.len + ab.len, aa.keys.max(ab.keys)),
             BinOp::Zip => (aa.len.min(ab.len), aa.keys),
             _ => (aa.len * ab.len / aa.keys.max(ab.keys).max(1) + aa.len + ab.len, aa.keys.max(ab.keys)),
@@ -271,6 +273,7 @@ impl<'t> Gen<'t> {
             BinOp::Merge => Repl::Unlimited,
             BinOp::Join(_, JoinForm::BcastHash) | BinOp::Join(_, JoinForm::BcastSortMerge) => aa.repl,
             BinOp::IntervalJoin { keyed: false, .. } => Repl::One,
+            BinOp::KeyedJoinAssoc(_) | BinOp::KeyedMergeAssoc(_) => Repl::Unlimited,
             _ => Repl::Unlimited,
         };
         self.steps.push(Step::Bin(a, b, op));
